@@ -834,7 +834,9 @@ func dbxStarts(w int64) [][]string {
 	if w > 0 {
 		st = append(st,
 			[]string{"app/s1/F+1/f", "app/s1/F-Wh/f", "app/s1/F-Wh/f", "cmpooo", "app/s1/F-Wh/f", "app/s1/F+160/f", "app/s1/F-Wh/h"},
-			[]string{"app/s1/F+1/f", "app/s1/F+1/f", "app/s1/F-1/f", "app/s1/F-1/f", "app/s1/F-1/f", "app/s1/F-1/f", "app/s1/F-1/f", "mmap", "app/s2/F-Wh/f"},
+			// two m-mapped out-of-order chunks, the later one holding OLDER data, then the head max moves on
+			[]string{"app/s1/F+1/f", "app/s1/F-1/f", "app/s1/F-2/f", "app/s1/F-3/f", "app/s1/F-4/f", "app/s1/F-5/f", "app/s1/F-30/f", "app/s1/F-31/f", "app/s1/F-32/f", "app/s1/F-33/f", "app/s1/F-34/f", "app/s1/F+160/f"},
+			[]string{"app/s1/F+1/f", "app/s2/F+1/f", "app/s1/F-10/f", "app/s2/F-20/h", "app/s1/F-11/f", "mmap", "app/s1/F+1/f", "app/s2/F-Wh/f"},
 		)
 	}
 	return st
